@@ -223,7 +223,7 @@ theorem flags_step {s : Shared} {l : Loc} (hF : flagsOk l) (h : tstep s t l ch =
   all_goals (try (obtain ⟨_, rfl, _⟩ := h))
   all_goals (try simp only [loopPc])
   all_goals (try split)
-  all_goals (first | (simp [flagsOk, hF]; done) | (simp [flagsOk]; done) | (simp [flagsOk, hF.1, hF.2]; done) | skip)
+  all_goals (first | (simp [flagsOk, hF]; done) | (simp [flagsOk]; done) | (simp [flagsOk, hF.1, hF.2]; done) | (simp [flagsOk, hpc]; done) | (simp_all [flagsOk]; done) | (simp_all [flagsOk]; (try intros); first | omega | grind))
 
 theorem step_sim {σ' : Sys} (hI : Inv σ bs) (hF : ∀ t, flagsOk (σ.thr t)) (h : σ.step t ch = some (σ', e)) :
     ∃ bs', stepO bs e = some bs' ∧ Inv σ' bs' ∧ ∀ t, flagsOk (σ'.thr t) := by
